@@ -470,12 +470,12 @@ def m_bm_opassign(eng, st, callee, a, ty):
     return one(unit())
 
 
-@model(r"^<&?RoaringBitmap as (BitOr|Sub|BitAnd)<&?RoaringBitmap>>::\w+$")
+@model(r"^<&?RoaringBitmap as (BitOr|Sub|BitAnd)(<&?RoaringBitmap>)?>::\w+$")
 def m_bm_op(eng, st, callee, a, ty):
     x, y = bitmap_of(eng, a[0]), bitmap_of(eng, a[1])
-    if "BitOr<" in callee:
+    if " as BitOr" in callee:
         return one(x | y)
-    if "Sub<" in callee:
+    if " as Sub" in callee:
         return one(x & ~y)
     return one(x & y)
 
